@@ -11,15 +11,16 @@ import (
 // C14 — the library never feeds on its own writes.
 //
 // Reference model (closed loop: the checkpoint documents live in the streamed bucket):
-//   R1  every document a member writes has a key prefix+<its group>+":checkpoint:"+<vb> (or, for the
-//       heart-beat membership, prefix+<group>+":instance:"+...), the stored position belongs to that vBucket,
-//       and no key is written on behalf of two different (group, vBucket) pairs;
-//   R2  a group name containing a dot is rejected before anything is written;
-//   R3  a vBucket whose position moved only because reserved-prefix events were absorbed is not written:
-//       every checkpoint write of (member, vb) after the first is preceded - since the previous write of that
-//       vb was sent - by an acknowledgement on that vb or by an absorbed non-document stream event;
-//   R4  events with a reserved-prefix key are never shown to the consumer;
-//   R5  they still advance the position: TrackOffset reaches their seqno.
+//
+//	R1  every document a member writes has a key prefix+<its group>+":checkpoint:"+<vb> (or, for the
+//	    heart-beat membership, prefix+<group>+":instance:"+...), the stored position belongs to that vBucket,
+//	    and no key is written on behalf of two different (group, vBucket) pairs;
+//	R2  a group name containing a dot is rejected before anything is written;
+//	R3  a vBucket whose position moved only because reserved-prefix events were absorbed is not written:
+//	    every checkpoint write of (member, vb) after the first is preceded - since the previous write of that
+//	    vb was sent - by an acknowledgement on that vb or by an absorbed non-document stream event;
+//	R4  events with a reserved-prefix key are never shown to the consumer;
+//	R5  they still advance the position: TrackOffset reaches their seqno.
 func init() { checkers["C14"] = checkC14 }
 
 func reservedKey(k []byte) bool { return isInternalKey(k) }
@@ -219,4 +220,3 @@ func checkC14(run *Run, res *Result) {
 		}
 	}
 }
-
